@@ -42,9 +42,9 @@
 (*                                       whose racing accesses are both in *)
 (*                                       the anchored files)               *)
 (***************************************************************************)
-EXTENDS CollFSStore
+EXTENDS CollFSStore, TraceIO
 
-VARIABLES pend,     \* [call id -> [e (call record with results), lin, from, snap, f0]]
+VARIABLES pend,     \* [call id -> [i (line of the call record, which carries the results), lin, from, snap, f0]]
           chist,    \* per inode: sequence of all contents it has had
           fails     \* number of failed Keep writes so far
 
@@ -68,7 +68,7 @@ Apply(e) ==
       [] e.op = "remove"    -> Remove(e.p, e.ok)
       [] e.op = "removeall" -> RemoveAll(e.p, e.ok)
       [] e.op = "stat"      -> Stat(e.p, e.ok, e.dir, e.n)
-      [] e.op = "readdir"   -> Readdir(e.p, e.ok, e.ents)
+      [] e.op = "readdir"   -> ReaddirNames(e.p, e.ok, e.ents)   \* sizes of the entries are not one snapshot
       [] e.op = "flush"     -> Flush
       [] OTHER              -> FALSE
 
@@ -83,18 +83,20 @@ NextHist == [i \in 1 .. Len(nodes') |->
                ELSE IF nodes'[i].k = "f" /\ nodes'[i].d # nodes[i].d THEN Append(chist[i], nodes'[i].d)
                ELSE chist[i]]
 
-Call(id, e) ==
+E(id) == Trace[pend[id].i]          \* the call record of a pending call (kept out of the state)
+
+Call(id, i) ==
     /\ id \notin DOMAIN pend
-    /\ pend' = (id :> [e |-> e, lin |-> FALSE, snap |-> {}, f0 |-> fails,
-                       from |-> [i \in 1 .. Len(nodes) |-> Len(chist[i])]]) @@ pend
+    /\ pend' = (id :> [i |-> i, lin |-> FALSE, snap |-> {}, f0 |-> fails,
+                       from |-> IF Trace[i].op = "marshal" THEN [j \in 1 .. Len(nodes) |-> Len(chist[j])] ELSE <<>>]) @@ pend
     /\ UNCHANGED <<fsvars, svars, chist, fails>>
 
 Lin(id) ==
     /\ id \in DOMAIN pend /\ ~pend[id].lin
-    /\ IF pend[id].e.op = "marshal"
+    /\ IF E(id).op = "marshal"
        THEN /\ pend' = [pend EXCEPT ![id].lin = TRUE, ![id].snap = ListingI(1, <<>>)]
             /\ UNCHANGED <<fsvars, chist>>
-       ELSE /\ Apply(pend[id].e)
+       ELSE /\ Apply(E(id))
             /\ pend' = [pend EXCEPT ![id].lin = TRUE]
             /\ chist' = NextHist
     /\ UNCHANGED <<svars, fails>>
@@ -107,7 +109,7 @@ SavedContentOK(p, m) ==
 
 Ret(id) ==
     /\ id \in DOMAIN pend /\ pend[id].lin
-    /\ LET p == pend[id]  e == p.e IN
+    /\ LET p == pend[id]  e == E(id) IN
        e.op = "marshal" =>
          IF e.ok
          THEN /\ e.m.gok /\ BlocksOK(e.m) /\ SemOK(e.m)
@@ -116,6 +118,49 @@ Ret(id) ==
          ELSE fails > p.f0
     /\ pend' = [x \in (DOMAIN pend) \ {id} |-> pend[x]]
     /\ UNCHANGED <<fsvars, svars, chist, fails>>
+
+-----------------------------------------------------------------------------
+(* Search reduction (sound and complete).  Linearisation points can always be  *)
+(* moved as late as possible: operations need to take effect only in a burst   *)
+(* immediately before some operation y returns, and only those that must       *)
+(* precede y: the operations connected to y by a chain of DEPENDENT pending    *)
+(* operations (two operations are independent if their Lin steps commute: same *)
+(* results, same state in either order).  Dep over-approximates dependence:    *)
+(*   handle calls (write/read/seek/trunc/size/close) on the same inode;        *)
+(*   a content-changing call (write, trunc, open with O_TRUNC) and stat (it    *)
+(*   reports the size; readdir is compared by names and kinds only here);      *)
+(*   a structural call (mkdir, rename, remove, removeall, open with O_CREATE   *)
+(*   or O_TRUNC) and a marshal (whose Lin records the directory structure), or *)
+(*   any structural or path-observing call one of whose paths is a prefix of   *)
+(*   (or equal to) one of the other's (no links: an entry has one path);       *)
+(*   open with O_TRUNC and any handle call.                                    *)
+(* The content check at the return of a marshal depends on the Lin of pending  *)
+(* content-changing calls, so those seed the burst before a marshal returns.   *)
+IsA(e) == e.op \in {"write", "read", "seek", "trunc", "size", "close"}
+OpenT(e) == e.op = "open" /\ e.tr
+Changing(e) == e.op \in {"write", "trunc"} \/ OpenT(e)
+IsC(e) == e.op \in {"mkdir", "rename", "remove", "removeall"} \/ (e.op = "open" /\ (e.cr \/ e.tr))
+IsD(e) == e.op \in {"stat", "readdir"} \/ (e.op = "open" /\ ~e.cr /\ ~e.tr)
+IsM(e) == e.op = "marshal"
+PathsOf(e) == IF e.op = "rename" THEN {e.p, e.q} ELSE {e.p}
+Comparable(p, q) == LET n == IF Len(p) < Len(q) THEN Len(p) ELSE Len(q) IN SubSeq(p, 1, n) = SubSeq(q, 1, n)
+PathsMeet(a, b) == \E p \in PathsOf(a), q \in PathsOf(b) : Comparable(p, q)
+InoA(e) == IF e.h \in DOMAIN handles THEN handles[e.h].ino ELSE 0
+Dep1(a, b) ==
+    \/ IsA(a) /\ IsA(b) /\ (InoA(a) = InoA(b) \/ InoA(a) = 0 \/ InoA(b) = 0)
+    \/ Changing(a) /\ b.op = "stat"
+    \/ IsC(a) /\ IsM(b)
+    \/ IsC(a) /\ (IsC(b) \/ IsD(b)) /\ PathsMeet(a, b)
+    \/ OpenT(a) /\ IsA(b)
+Dep(a, b) == Dep1(a, b) \/ Dep1(b, a)
+
+Unlin == {x \in DOMAIN pend : ~pend[x].lin}
+RECURSIVE Closure(_)
+Closure(S) == LET N == {x \in Unlin \ S : \E z \in S : Dep(E(x), E(z))} IN
+              IF N = {} THEN S ELSE Closure(S \cup N)
+Burst(y) == IF y \notin DOMAIN pend THEN {}
+            ELSE Closure((IF pend[y].lin THEN {} ELSE {y})
+                         \cup (IF IsM(E(y)) THEN {x \in Unlin : Changing(E(x))} ELSE {}))
 
 PutBConc(ok) == /\ fails' = IF ok THEN fails ELSE fails + 1
                 /\ UNCHANGED <<fsvars, svars, pend, chist>>
